@@ -169,6 +169,11 @@ class Run:
         return {'info': self.info, 'recs': [{k: v for k, v in r.items() if k != 'w'} for r in self.recs][:5]}
 
     def judge(self, outcome):
+        if outcome == 'caller-killed':
+            k = C.caller_killed_by_other(self.sim)
+            if k is not None:
+                return [{'clause': 'parents-informed', 'manifestation': f'calling-process-killed-by-signal-from:{k["tag"] or k["proc"]}:{k["role"]}',
+                         'detail': k, 'kind': 'server'}]
         if outcome in ('hang', 'time-cap', 'spin'):
             return [{'clause': 'parents-informed', 'manifestation': f'workload-{outcome}', 'detail': self.sim.outcome_info, 'kind': 'server'}]
         return self.V
